@@ -4,4 +4,5 @@ INIT Init
 NEXT GenNext
 INVARIANTS ForwardIsAllowed ErrCountIsFaultyExecuted ChainMirrorsCounts ImageIsData KeptIffClean
            ConstantsKeepTheirValue SkippedDefinesNothing VariableIsLastSetOrPopped
+           ExpectListIsAnnouncedMinusConsumed HiddenIsNeverCounted EndIsFinal
 CHECK_DEADLOCK FALSE
